@@ -146,18 +146,9 @@ Proof.
   eapply sd_rule; eauto. intros n Hin. destruct (negp r); [destruct Hin | discriminate].
 Qed.
 
-Lemma varcmp_filter : forall (p : rule -> bool) P, known_C05_varcmp P = false -> known_C05_varcmp (filter p P) = false.
-Proof.
-  intros p P H. unfold known_C05_varcmp in *. destruct (existsb _ (filter p P)) eqn:E; [| reflexivity].
-  apply existsb_exists in E. destruct E as [r [Hr Hx]]. apply filter_In in Hr. destruct Hr as [Hr _].
-  assert (X : existsb (fun r => existsb (fun f => negb (filter_supported f)) (filt r)) P = true) by (apply existsb_exists; exists r; auto).
-  congruence.
-Qed.
-
 Section NegProv.
   Variables (nv : N -> Z) (P : list rule) (F : list fact).
   Hypothesis HS : safe P = true.
-  Hypothesis HV : known_C05_varcmp P = false.
   Hypothesis HK : known_C05_neg_feed P = false.
 
   Let negrules := filter (fun r => negb (no_neg r)) P.
@@ -196,7 +187,7 @@ Section NegProv.
       apply (rows_fire_gen (concl r) _ _ f (neg_test nv all r) (fun sg => filters_ok nv sg (filt r) && negs_ok all sg (negp r)) EX).
       - rewrite map_fst_with_facts. exact RC.
       - intros row Hrow. unfold neg_test. destruct EX as [_ _ D _ _]. rewrite map_fst_with_facts in D.
-        rewrite eval_filters_val; [| apply (varcmp_false P HV r Hr) | intros x Hx; apply (D row x Hrow); apply RF; exact Hx].
+        rewrite eval_filters_val by (intros x Hx; apply (D row x Hrow); apply RF; exact Hx).
         rewrite neg_ok_val by (intros x Hx; apply (D row x Hrow); apply RN; exact Hx). reflexivity.
       - intros s1 s2 Heq. rewrite map_fst_with_facts in Heq.
         rewrite (filters_ok_ext nv s1 s2) by (intros x Hx; apply Heq; apply RF; exact Hx).
@@ -222,7 +213,7 @@ Section NegProv.
   Proof.
     intros fuel all new H. unfold prov_bool_run in H.
     destruct (infer_with_strategy (semi_round nv (filter no_neg P)) fuel 0%nat F) as [[all0 new0] |] eqn:E0; [| discriminate].
-    destruct (semi_correct nv (filter no_neg P) F safe_pos (varcmp_filter no_neg P HV) fuel all0 new0 E0) as [A0 [N0 ND0]].
+    destruct (semi_correct nv (filter no_neg P) F safe_pos fuel all0 new0 E0) as [A0 [N0 ND0]].
     rewrite no_neg_same in A0, N0. fold (pos_rules P) in A0, N0.
     set (d := neg_pass nv negrules all0).
     assert (RES : all = all0 ++ d /\ new = new0 ++ d).
